@@ -29,7 +29,9 @@ class C03(Prop):
     def rule(self):
         return ("FRAME ops on: valid frames of every payload length L (quick: 0..16, 1020..1023 and a seeded sample; "
                 "thorough: all 0..=1023), near-misses of each (wrong preamble, truncations, checksum off by one "
-                "bit/byte, reserved bits set with stale/fresh checksum, length field perturbed, suffixes), random "
+                "bit/byte, reserved bits set with stale/fresh checksum, length field perturbed, suffixes), valid frames whose "
+                "checksum is a chosen value (000000, FFFFFF, ff/00 bytes, a preamble byte, literals of the sources: the last "
+                "three payload bytes are solved for) with their near-misses and checksum truncations, slices beyond 64 KiB, random "
                 "slices. Non-trivial = distinct slices that pass the preamble and extent tests, i.e. reach the "
                 "CRC comparison.")
 
@@ -152,7 +154,8 @@ class C05(Prop):
 
     def rule(self):
         return ("SCAN and ITER ops on seeded byte streams mixing valid frames, garbage, stray 0xD3, corrupted, "
-                "truncated, long-announcing headers and frames nested in payloads. Oracle: independent first-event "
+                "truncated, long-announcing headers and frames nested in payloads; frames with chosen checksum values; frames whose "
+                "header bytes equal the preamble; every short frame as the very end of the buffer behind every kind of prefix. Oracle: independent first-event "
                 "scanner in the harness (earliest 0xD3 whose candidate is accepted or incomplete), frame bytes = "
                 "buffer bytes ending at consumed, iterator = repeated scans. Non-trivial = distinct streams with "
                 "at least two candidate kinds.")
@@ -222,7 +225,7 @@ class C06(Prop):
     def rule(self):
         return ("SCHED ops (arbitrary interleavings of appending a piece and single scanner calls, finished by "
                 "draining) and FEED ops: streams as in C05, cut into consecutive chunks: random cut sets, all one-byte chunks, "
-                "cuts at every offset of one frame. Oracle: delivered frames, total consumed and remainder equal "
+                "cuts at every offset of frames of several lengths, of frames with chosen checksum values and of frames whose header bytes equal the preamble. Oracle: delivered frames, total consumed and remainder equal "
                 "those of feeding the whole stream at once (real scanner both times). Non-trivial = distinct "
                 "(stream, cut set) with at least one cut strictly inside a frame or candidate and >= 2 chunks.")
 
@@ -277,7 +280,7 @@ class C04(Prop):
                 "every single admissible bit (reserved header bits 8..13, payload, checksum) for short frames and "
                 "sampled for long ones; all bit pairs for frames <= 10 bytes (thorough: <= 24) and sampled pairs "
                 "otherwise; bursts of every length 2..=24 at sampled (thorough: every) start position with random "
-                "interior; odd-weight random patterns. Oracle: altered frame rejected as NotValid and not delivered "
+                "interior; structured wrong checksums; frames whose own checksum is a chosen value; odd-weight random patterns. Oracle: altered frame rejected as NotValid and not delivered "
                 "at offset 0 by the scanner. Non-trivial = distinct (frame, flip set) with a non-empty flip set.")
 
     def trusted(self):
